@@ -26,7 +26,7 @@ import consumers, c12, c04, walkers
 LEVEL = 'other'
 EXPLANATION = __doc__
 ASSUMPTIONS = ['FromStr implementations of the target types are the user\'s']
-FLOORS = {'R.registry': 17, 'V.value-slot': 9, 'L.lossless': 10, 'D.cluster-table': 4, 'B.boundaries': 4}
+FLOORS = {'R.registry': 17, 'V.value-slot': 9, 'L.lossless': 10, 'D.cluster-table': 4, 'B.boundaries': 5}
 
 LOSSY = [r'to_string_lossy$', r'from_utf8_lossy$', r'str::<impl str>::(trim\w*|to_lowercase|to_uppercase|to_ascii_lowercase|to_ascii_uppercase|replace|replacen)$', r'make_ascii_(lower|upper)case$']
 LOSSY_OK = {
@@ -286,6 +286,44 @@ def boundaries(ctx, cfg, fs):
             consts(rs)
             ctx.ob('B.boundaries', 'split_os_argument:%s' % c.name.split('::')[-1], not bad,
                    'split_os_argument cuts the encoded name with %s at %s (a constant element offset is not a character boundary for a non-ASCII short name)' % (c.name.split('::')[-1], bad or 'a computed character width'), where=c.where(), cfg=cfg)
+    # the width function itself, as a table over the first element (unix: UTF-8 lead byte -> number of bytes)
+    wfn = set()
+    for c in b.calls():
+        if c.is_(r'Vec::<.*>::drain', r'Vec::<.*>::truncate$'):
+            def width_calls(rs_, depth=0):
+                for r in rs_:
+                    if r.kind == 'call':
+                        for h in callee_bodies(fs, r.call):
+                            wfn.add(h.path)
+                    elif r.kind == 'agg' and depth < 3:
+                        for f in r.extra['fields']:
+                            width_calls(provenance(b, f, r.site[0], r.site[1], through=None), depth + 1)
+            width_calls(provenance(b, c.args[1], c.bb, 'term', through=None))
+    if len(wfn) != 1:
+        raise Broken('split_os_argument: the character-width helper behind drain/truncate was not identified (%s)' % sorted(wfn))
+    wb = ctx.look(fs.bodies[list(wfn)[0]])
+    if wb.local_ty(1).endswith('[u8]'):
+        want = {0x41: 1, 0x7f: 1, 0xc3: 2, 0xdf: 2, 0xe0: 3, 0xef: 3, 0xf0: 4, 0xf4: 4}
+    else:
+        want = {0x41: 1, 0xd7ff: 1, 0xd800: 2, 0xdbff: 2, 0xe000: 1}
+    got = {}
+    for v in want:
+        def cm(w, c, store, v=v):
+            if c.is_(r'slice::<impl \[.*\]>::first$'):
+                return ('agg', 'std::option::Option', 'Some', [('c', v)])
+            if c.is_(r'Range<.*>::contains', r'RangeInclusive<.*>::contains'):
+                return None
+            return None
+        cm.first = True
+        w = Walker(wb, call_model=cm, max_paths=200)
+        vals = set()
+        for pth in w.run():
+            named = [(blk, l, val) for (blk, l, val) in pth.assigns if val is not UNKNOWN and val[0] == 'c' and isinstance(val[1], int) and wb.local_ty(l) == 'usize']
+            vals.add(named[-1][2][1] if named else None)
+        got[v] = sorted(vals, key=str)
+    ok = all(got[v] == [want[v]] for v in want)
+    ctx.ob('B.boundaries', 'split_os_argument:width-table', ok, 'the width helper %s maps a first element to the length of the character it starts: %s (expected %s)' % (
+        short(wb.path), {hex(k): v for k, v in got.items()}, {hex(k): v for k, v in want.items()}), where=wb.where(), cfg=cfg)
     # the multi-character test compares with the same computed width
     cmp_ok = False
     for sw in switches(b):
